@@ -15,6 +15,11 @@ driven like ``VirtualBoundaryForcing`` drives them (``rv.checks.c06.Comm``).  Pe
   ``sum_c (x_c - p)_a (S F)_b dx^d == sum_m (X_m - p)_a F_b,m`` about a random point p (its antisymmetric part is
   the torque; reported separately).
 
+Workload diversity (added after the seeded-change campaign; generators shared with C06): every 4th batch on a TALL grid
+(2-D: grid_size_y > grid_size_x; 3-D alternately y > x and z > x), a SIBLING communicator per shard (shares N / dx with
+earlier objects of the process, 3-D variant B has N == dim, positional constructor arguments + defaults), then the FIRST
+communicator of the process again.
+
 Tolerances are a-priori rounding models (``e_m = eps_t + eps64*(|X_m|/dx + 2)`` as in C06, S = cells with
 |r_a| < 2.5 in every direction, n_c = markers touching cell c times number of spreads):
   interpolation   4*4^d*eps_t*sum|W||u|dx^d + 32*e_m*d*2^-d*sum_S|u|            (dot product + weight noise)
@@ -86,6 +91,11 @@ REQUIRE = {
     "force_integrals": 100,
     "first_moment_tensor_entries": 100,
     "vector_component_pairs_checked": 100,
+    "batches_grid_y_exceeds_x": 100,
+    "batches_grid_z_exceeds_x": 20,
+    "batches_sibling_comm_shared_dx_or_N": 100,
+    "batches_first_comm_after_sibling": 100,
+    "batches_N_equals_dim": 20,
 }
 
 EPS64 = c06.EPS64
@@ -119,11 +129,12 @@ def shards(tier, seed):
     return out
 
 
-def _shape(rng, d, nx, N, tier):
-    """non-cubic grid, x size nx, with N * cells bounded (dense matrices)"""
+def _shape(rng, d, nx, N, tier, tall=0):
+    """non-cubic grid, x size nx, with N * cells bounded (dense matrices); ``tall``: see c06.random_shape (dropped when
+    the tall grid does not fit the budget)"""
     budget = 3e6 if tier == "quick" else 6e6
-    for _ in range(100):
-        shape = c06.random_shape(rng, d, nx, tier)
+    for i in range(100):
+        shape = c06.random_shape(rng, d, nx, tier, tall if i < 50 else 0)
         if N * int(np.prod(shape)) <= budget:
             return shape
     other = max(6, int((budget / N / nx) ** (1.0 / (d - 1))))
@@ -180,31 +191,51 @@ def run_shard(sh, rec):
     real_t = util.DT[sh["dtype"]]
     eps = util.eps(real_t)
     rng = util.rng_for(seed, ID, sh["name"])
-    for x_range, nx, N in POOL[d][sh["variant"]]:
+    # pool entries, then the sibling communicator (c06.SIBLINGS: shares N with one earlier object and, where C06's pool
+    # entry is also in this pool, dx with another; positional constructor arguments + defaults), then the FIRST one again
+    entries = [(e, "pool") for e in POOL[d][sh["variant"]]] + [(c06.SIBLINGS[d][sh["variant"]], "sibling"), (POOL[d][sh["variant"]][0], "first-again")]
+    first = None
+    for (x_range, nx, N), role in entries:
         dom0 = c06.make_domain(d, (8,) * (d - 1) + (nx,), x_range, real_t)
         dx_t = dom0.dx
         dxf = float(dx_t)
         shiftf = float(real_t(dx_t / 2))
-        try:
-            comm = c06.Comm(d, dx_t, N, real_t, kernel)
-        except Exception as e:
-            rec.violation("communicator-construction-raises", f"{type(e).__name__}: {e} dx={dxf} N={N}", None)
-            rec.case(None)
-            continue
+        if role == "first-again":
+            if first is None:
+                continue
+            comm = first
+        else:
+            try:
+                comm = c06.Comm(d, dx_t, N, real_t, kernel, positional=(role == "sibling"))
+            except Exception as e:
+                rec.violation("communicator-construction-raises", f"{type(e).__name__}: {e} dx={dxf} N={N}", None)
+                rec.case(None)
+                continue
+            if first is None and role == "pool":
+                first = comm
         if tier == "quick":
             nb = 30 if N >= 128 else 50
         else:
             nb = 150 if N >= 128 else 300
+        if role != "pool":
+            nb = max(10, nb // 4)
         off = int(rng.integers(len(MARKER_SETS)))
         for b in range(nb):
             kind = MARKER_SETS[(b + off) % len(MARKER_SETS)]
             if N == 1 and kind in ("duplicates",):
                 kind = "uniform"
-            shape = _shape(rng, d, nx, N, tier)
+            shape = _shape(rng, d, nx, N, tier, c06.tall_class(b, d))
+            if shape[-2] > shape[-1]:
+                rec.count("batches_grid_y_exceeds_x")
+            if d == 3 and shape[0] > shape[-1]:
+                rec.count("batches_grid_z_exceeds_x")
+            rec.count({"pool": "batches_pool_comm", "sibling": "batches_sibling_comm_shared_dx_or_N", "first-again": "batches_first_comm_after_sibling"}[role])
+            if N == d:
+                rec.count("batches_N_equals_dim")
             dom = c06.make_domain(d, shape, x_range, real_t)
             P = marker_set(rng, kind, N, shape, dx_t, real_t, x_range, dom.position_field, rec)
             base = (d, sh["dtype"], kernel, c06.n_class(N), kind)
-            meta = {"dim": d, "dtype": sh["dtype"], "kernel": kernel, "x_range": x_range, "shape": shape, "dx": dxf, "N": N, "markers": kind}
+            meta = {"dim": d, "dtype": sh["dtype"], "kernel": kernel, "x_range": x_range, "shape": shape, "dx": dxf, "N": N, "markers": kind, "object": role}
             _check_batch(rec, rng, comm, P, shape, dxf, shiftf, eps, base, meta, kernel, real_t)
 
 
